@@ -90,6 +90,10 @@ func (scriptTransport) RoundTrip(req *http.Request) (*http.Response, error) {
 		io.Copy(io.Discard, req.Body)
 		req.Body.Close()
 	}
+	if req.URL.Path == "/elsewhere" {
+		// the place 3xx answers point to: a redirect that is followed although `redirects off` ends in a 2xx here
+		return &http.Response{StatusCode: 200, Status: "200 OK", Proto: "HTTP/1.1", ProtoMajor: 1, ProtoMinor: 1, Header: http.Header{}, Body: http.NoBody, Request: req}, nil
+	}
 	switch b.Kind {
 	case "status":
 		h := http.Header{}
@@ -124,9 +128,10 @@ func (t Tgt) URL() string { return "http://" + okHost + t.Path }
 
 const routePath = "/r"
 
+// dslText is the configuration text without the listener lines (bootWorld adds them: the addresses are
+// placeholders of the in-memory network and must be unique per boot).
 func dslText(targets []Tgt, conc int) string {
 	var b strings.Builder
-	b.WriteString("ingress   { listen \"127.0.0.1:18080\" }\nadmin_api { listen \"127.0.0.1:12019\" }\n")
 	b.WriteString("defaults {\n  egress {\n    deny \"" + deniedHost + "\"\n    https_only off\n    redirects off\n    dns_rebind_protection off\n  }\n}\n")
 	fmt.Fprintf(&b, "%s {\n  deliver_concurrency %d\n", routePath, conc)
 	for _, t := range targets {
@@ -138,7 +143,7 @@ func dslText(targets []Tgt, conc int) string {
 
 // compileAccepts runs the real Parse + Compile on the text.
 func compileAccepts(text string) (bool, string) {
-	cfg, err := config.Parse([]byte(text))
+	cfg, err := config.Parse([]byte(listenLines(0) + text))
 	if err != nil {
 		return false, "parse: " + err.Error()
 	}
@@ -162,6 +167,10 @@ var (
 	bootSeq    int
 )
 
+func listenLines(seq int) string {
+	return fmt.Sprintf("ingress   { listen \"127.0.0.1:%d\" }\nadmin_api { listen \"127.0.0.1:%d\" }\n", 20000+2*(seq%20000), 20001+2*(seq%20000))
+}
+
 func bootWorld(text string) (*World, error) {
 	worldMu.Lock()
 	defer worldMu.Unlock()
@@ -170,7 +179,9 @@ func bootWorld(text string) (*World, error) {
 	}
 	bootSeq++
 	dir := filepath.Join(runner.Scratch(), fmt.Sprintf("boot-%d", bootSeq))
-	a, err := app.VerifBoot(app.VerifBootOptions{Dir: dir, ConfigText: text, Store: queue.NewMemoryStore()})
+	// a fresh pair of in-memory listen addresses per boot: http.Server.Shutdown may return before a Serve
+	// goroutine that had not started yet has released its listener
+	a, err := app.VerifBoot(app.VerifBootOptions{Dir: dir, ConfigText: listenLines(bootSeq) + text, Store: queue.NewMemoryStore()})
 	if err != nil {
 		return nil, err
 	}
